@@ -8,6 +8,7 @@ import (
 	"go/types"
 	"regexp"
 	"sort"
+	"strconv"
 	"strings"
 
 	"golang.org/x/tools/go/ssa"
@@ -196,7 +197,28 @@ func fieldOfPrinted(v ssa.Value, depth int) string {
 		return fieldOfPrinted(x.X, depth+1)
 	case *ssa.Call:
 		if len(x.Call.Args) > 0 {
-			return fieldOfPrinted(x.Call.Args[0], depth+1)
+			if f := fieldOfPrinted(x.Call.Args[0], depth+1); f != "" {
+				return f
+			}
+			// a helper method of the item itself (r.dateString()): the one
+			// field of the receiver it reads
+			if g := staticCallee(&x.Call); g != nil && g.Signature.Recv() != nil && len(g.Blocks) > 0 {
+				if _, isParam := x.Call.Args[0].(*ssa.Parameter); isParam {
+					fields := map[string]bool{}
+					allInstrs(g, func(ins ssa.Instruction) {
+						if u, ok := ins.(*ssa.UnOp); ok && u.Op == token.MUL {
+							if fa, ok := u.X.(*ssa.FieldAddr); ok && fa.X == ssa.Value(g.Params[0]) {
+								fields[fieldVarOfAddr(fa).Name()] = true
+							}
+						}
+					})
+					if len(fields) == 1 {
+						for f := range fields {
+							return f
+						}
+					}
+				}
+			}
 		}
 	case *ssa.UnOp:
 		return fieldOfPrinted(x.X, depth+1)
@@ -445,6 +467,171 @@ func ruleTagViews(c *Ctx, r *Rep, tier string) {
 				r.Check(good, rule, fmt.Sprintf("sam.(*%s).Tags#%s:%s", k.typ, t, f), c.Pos(tfn.Pos()), fmt.Sprintf("Tags reports %s from field %s", t, f), fmt.Sprintf("String prints %s from field %s, Tags reports it from %q (present=%v)", t, f, got, ok))
 			}
 		}
+	}
+}
+
+// ruleDateZone (DATE-ZONE): every layout a read group's date is printed with
+// carries a zone designator, and (with its colons removed, as parseISO8601 does)
+// is one of the layouts the parser accepts as non-local. A layout without a
+// zone is read back in time.Local: the instant changes for any other zone.
+// Added after a blind second-round seed (midnight printed date-only).
+func ruleDateZone(c *Ctx, r *Rep, tier string) {
+	rule := "DATE-ZONE"
+	p := c.ByPath["sam"]
+	// the parser's table
+	type ent struct {
+		local  bool
+		layout string
+	}
+	var table []ent
+	for _, f := range p.Syntax {
+		ast.Inspect(f, func(n ast.Node) bool {
+			vs, ok := n.(*ast.ValueSpec)
+			if !ok || len(vs.Names) != 1 || vs.Names[0].Name != "iso8601" || len(vs.Values) != 1 {
+				return true
+			}
+			cl, ok := vs.Values[0].(*ast.CompositeLit)
+			if !ok {
+				return true
+			}
+			for _, e := range cl.Elts {
+				ecl, ok := e.(*ast.CompositeLit)
+				if !ok {
+					continue
+				}
+				var en ent
+				for _, kv := range ecl.Elts {
+					k, ok := kv.(*ast.KeyValueExpr)
+					if !ok {
+						continue
+					}
+					tv := p.TypesInfo.Types[k.Value]
+					if tv.Value == nil {
+						continue
+					}
+					switch k.Key.(*ast.Ident).Name {
+					case "isLocal":
+						en.local = tv.Value.String() == "true"
+					case "format":
+						en.layout, _ = strconv.Unquote(tv.Value.ExactString())
+					}
+				}
+				table = append(table, en)
+			}
+			return true
+		})
+	}
+	if len(table) < 6 {
+		unresolved("sam.iso8601: %d entries", len(table))
+	}
+	n := 0
+	for _, fn := range c.FuncsIn("sam") {
+		if fn.Signature.Recv() == nil || !strings.Contains(fn.Signature.Recv().Type().String(), "ReadGroup") {
+			continue
+		}
+		fn := fn
+		allInstrs(fn, func(ins ssa.Instruction) {
+			call, ok := ins.(*ssa.Call)
+			if !ok {
+				return
+			}
+			g := staticCallee(&call.Call)
+			if g == nil || g.Name() != "Format" || g.Pkg == nil || g.Pkg.Pkg.Path() != "time" {
+				return
+			}
+			n++
+			r.Instance(rule, 1)
+			key := fmt.Sprintf("%s#Format~%d", c.FnName(fn), n)
+			layout, ok := constStringOf(call.Call.Args[1])
+			why := ""
+			switch {
+			case !ok:
+				why = "the layout is not a constant: " + symKey(call.Call.Args[1])
+			case !strings.Contains(layout, "-0700") && !strings.Contains(layout, "Z07") && !strings.Contains(layout, "MST"):
+				why = fmt.Sprintf("the date is printed with layout %q, which has no zone: it is read back in the local zone and the instant changes", layout)
+			default:
+				basic := strings.ReplaceAll(layout, ":", "")
+				found := false
+				for _, e := range table {
+					if e.layout == basic && !e.local {
+						found = true
+					}
+				}
+				if !found {
+					why = fmt.Sprintf("the parser has no non-local entry for layout %q (colons removed: %q)", layout, basic)
+				}
+			}
+			r.Check(why == "", rule, key, c.Pos(call.Pos()), fmt.Sprintf("layout %q carries the zone and is accepted as non-local", layout), why)
+		})
+	}
+	if n == 0 {
+		r.Instance(rule, 1)
+		r.Fail(rule, "sam.ReadGroup#date-formats", "sam/read_group.go", "no time.Format call found in ReadGroup's methods")
+	}
+}
+
+// ruleMergeKeeps (MERGE-KEEPS): when AddReference folds a compatible duplicate
+// into the reference the header already owns, it only ever overwrites a field
+// with the duplicate's non-empty value of the same field: nothing the owned
+// reference knows is discarded. (DecodeBinary adds the bare references of the
+// binary list after the text was parsed; an unconditional reset dropped every
+// user-defined @SQ tag of every BAM header read.) And the @CO parser keeps the
+// whole remainder of the line. Both reported by a second-round seeding agent as
+// defects of the unchanged tree, confirmed and repaired.
+func ruleMergeKeeps(c *Ctx, r *Rep, tier string) {
+	rule := "MERGE-KEEPS"
+	fn := c.Func("sam", "(*Header).AddReference")
+	n := 0
+	for _, e := range effectsOf(fn) {
+		if e.Kind != "store" || !strings.HasPrefix(e.Addr, "bh.refs[") || !strings.Contains(e.Addr, "].") {
+			continue
+		}
+		// the slot itself is not a field of the owned reference
+		F := e.Addr[strings.LastIndex(e.Addr, ".")+1:]
+		n++
+		r.Instance(rule, 1)
+		key := "sam.(*Header).AddReference#merge-" + F
+		why := ""
+		if e.Val != "r."+F {
+			why = fmt.Sprintf("the owned reference's %s is set to %s, not to the added reference's %s", F, e.Val, F)
+		} else {
+			guarded := false
+			for _, b := range fn.Blocks {
+				iff := ifOf(b)
+				if iff == nil {
+					continue
+				}
+				bo, ok := iff.Cond.(*ssa.BinOp)
+				if !ok || bo.Op != token.NEQ || symKey(bo.X) != "r."+F {
+					continue
+				}
+				if dominatedByEdge(fn, b, 0, e.Ins.Block()) {
+					guarded = true
+				}
+			}
+			if !guarded {
+				why = fmt.Sprintf("the owned reference's %s is overwritten even when the added reference has none", F)
+			}
+		}
+		r.Check(why == "", rule, key, c.Pos(e.Ins.Pos()), "overwritten only by the duplicate's non-empty "+F, why+": information the header held (from its text) is lost when the bare reference of the binary list is added")
+	}
+	if n < 4 {
+		r.Instance(rule, 1)
+		r.Fail(rule, "sam.(*Header).AddReference#merge-fields", c.Pos(fn.Pos()), fmt.Sprintf("%d merged fields found, want at least 4", n))
+	}
+	// @CO
+	r.Instance(rule, 1)
+	{
+		cl := c.Func("sam", "commentLine")
+		ok := false
+		got := ""
+		for _, e := range effectsOf(cl) {
+			if e.Kind == "store" && e.Addr == "bh.Comments" {
+				got = e.Val
+				ok = e.Val == "append(bh.Comments,[l[4:]])"
+			}
+		}
+		r.Check(ok, rule, "sam.commentLine#whole-remainder", c.Pos(cl.Pos()), "the comment is l[4:], everything after \"@CO\\t\"", "the comment stored is "+got+", not the remainder of the line: a comment containing a tab is cut")
 	}
 }
 
@@ -703,7 +890,42 @@ func ruleCoupledHeader(c *Ctx, r *Rep, tier string) {
 	}
 	sort.Strings(extra)
 	r.Instance(rule, 1)
+	ruleHeaderCopy(c, r)
 	r.Check(len(extra) == 0, rule, "sam#id-owner-writers", "sam", fmt.Sprintf("%d functions assign id/owner of header items, all reviewed", len(allowed)), fmt.Sprintf("id or owner of a header item is assigned in %v, outside the reviewed constructors and container operations", extra))
+}
+
+// ruleHeaderCopy (part of COUPLED-HEADER): a Header is never copied or assigned
+// as a whole value. A value copy shares the three name-table maps (and the
+// backing arrays of the lists) with the original, so restoring or duplicating a
+// header that way leaves tables and lists out of step – only Clone, which
+// rebuilds all of them, may produce a second header. Added after a blind
+// second-round seed (UnmarshalText "rolled back" with `orig := *bh … *bh = orig`).
+func ruleHeaderCopy(c *Ctx, r *Rep) {
+	rule := "COUPLED-HEADER"
+	hdr := c.Named("sam", "Header")
+	n := 0
+	var bad []string
+	for _, pkg := range []string{"sam", "bam"} {
+		for _, fn := range c.FuncsIn(pkg) {
+			fn := fn
+			allInstrs(fn, func(ins ssa.Instruction) {
+				n++
+				switch x := ins.(type) {
+				case *ssa.Store:
+					if types.Identical(x.Val.Type(), hdr) {
+						bad = append(bad, fmt.Sprintf("%s assigns a whole Header value at %s", c.FnName(fn), c.Pos(x.Pos())))
+					}
+				case *ssa.UnOp:
+					if x.Op == token.MUL && types.Identical(x.Type(), hdr) {
+						bad = append(bad, fmt.Sprintf("%s copies a whole Header value at %s", c.FnName(fn), c.Pos(x.Pos())))
+					}
+				}
+			})
+		}
+	}
+	sort.Strings(bad)
+	r.Instance(rule, 1)
+	r.Check(len(bad) == 0, rule, "sam.Header#no-value-copy", "sam", fmt.Sprintf("no load or store of a whole Header value in packages sam and bam (%d instructions looked at)", n), "a Header value copy shares its name tables with the original (names registered by lines that are later 'rolled back' stay registered with ids past the lists: the next AddReference of such a name indexes out of range): "+strings.Join(bad, "; "))
 }
 
 // pathOrder: a is executed before b on some path and b never before a.
@@ -814,6 +1036,8 @@ func init() {
 			{Name: "TAG-VIEWS", What: "for @HD/@SQ/@RG/@PG: the field String prints under a tag is the field the line parser fills for that tag (raw text for string fields), and Get/Set/Tags mean the same field; user-defined tags kept and printed", Floor: 100, Run: ruleTagViews},
 			{Name: "COUPLED-HEADER", What: "every insertion, adoption, replacement, removal, renumbering and renaming of a header item keeps owner, id = index and the name table in step; id/owner are assigned only in reviewed functions; Remove* guards test the container they splice", Floor: 60, Run: ruleCoupledHeader},
 			{Name: "FRESH-LINKS", What: "MergeHeaders: each source gets its own link slice; each link is owned by the merged header", Floor: 3, Run: ruleFreshLinks},
+			{Name: "MERGE-KEEPS", What: "AddReference's merge of a compatible duplicate overwrites a field only with the duplicate's non-empty value; the @CO parser keeps the whole remainder of the line", Floor: 5, Run: ruleMergeKeeps},
+			{Name: "DATE-ZONE", What: "every layout a read group's date is printed with carries a zone and is one the parser accepts as non-local (added after a blind second seed round)", Floor: 1, Run: ruleDateZone},
 			{Name: "WIRE-BAMHDR", What: "binary header: EncodeBinary's token sequence = DecodeBinary's", Floor: 6,
 				Run: ruleWirePair("WIRE-BAMHDR", "sam.(*Header).EncodeBinary#DecodeBinary", "sam", "(*Header).EncodeBinary", "sam", "(*Header).DecodeBinary", nil)},
 		},
